@@ -228,27 +228,47 @@ Proof.
   intros E. rewrite E in Hin. destruct Hin.
 Qed.
 
-(* one step meets the oracle *)
+(* one step meets the oracle: for every slice the sort may leave when the delays are distinct,
+   for the stable sort (windows of at most 12 samples) when they are not *)
 Lemma lucky_step_meets_spec cap pick hist s1 :
   (0 < cap)%nat -> (0 < pick)%nat -> hist <> [] ->
   let w := map meas_of (lastn cap hist) in
-  rtd_sorted_perm w s1 ->
+  rtd_sorted_perm w s1 -> (distinctb (map l_rtd w) = false -> s1 = isort l_rtd w) ->
   C17_lucky_step_ok cap pick hist (lucky_out_of (Nat.min pick cap) w s1) = true.
 Proof.
-  intros Hcap Hpick Hne w Hsp. unfold C17_lucky_step_ok, lucky_spec.
+  intros Hcap Hpick Hne w Hsp Hties. unfold C17_lucky_step_ok, lucky_spec.
   destruct cap as [|cap']; [lia|]. fold w.
-  destruct (distinctb (map l_rtd w) && forallb (fun m => Z.abs (l_off m) <? 2 ^ 62) w && negb (Nat.eqb (length w) 0)) eqn:E; [|reflexivity].
-  apply andb_prop in E. destruct E as [E E3]. apply andb_prop in E. destruct E as [E1 E2].
-  apply Z.eqb_eq. rewrite (lucky_selection_rule _ w s1 Hsp (distinctb_NoDup _ E1)).
-  symmetry. apply median_sorted_exact.
-  - intros Hnil. assert (Hl : lowest (Nat.min pick (S cap')) w = []).
-    { destruct (lowest (Nat.min pick (S cap')) w) eqn:El; [reflexivity|].
-      unfold zsort in Hnil. pose proof (isort_length (fun x => x) (map l_off (l :: l0))) as HL.
-      rewrite Hnil in HL. cbn in HL. lia. }
-    revert Hl. apply lowest_nonempty; [lia|].
-    intros Hw. rewrite Hw in E3. cbn in E3. discriminate.
-  - intros x Hx. apply zsort_In in Hx. apply in_map_iff in Hx. destruct Hx as [m [<- Hm]].
-    apply lowest_incl in Hm. rewrite forallb_forall in E2. specialize (E2 m Hm). apply Z.ltb_lt. exact E2.
+  destruct (forallb (fun m => Z.abs (l_off m) <? 2 ^ 62) w && negb (Nat.eqb (length w) 0)) eqn:E; [|reflexivity].
+  apply andb_prop in E. destruct E as [E2 E3].
+  assert (Hw : w <> []) by (intros Hw; rewrite Hw in E3; cbn in E3; discriminate).
+  destruct (distinctb (map l_rtd w)) eqn:E1.
+  - apply Z.eqb_eq. rewrite (lucky_selection_rule _ w s1 Hsp (distinctb_NoDup _ E1)).
+    symmetry. apply median_sorted_exact.
+    + intros Hnil. assert (Hl : lowest (Nat.min pick (S cap')) w = []).
+      { destruct (lowest (Nat.min pick (S cap')) w) eqn:El; [reflexivity|].
+        unfold zsort in Hnil. pose proof (isort_length (fun x => x) (map l_off (l :: l0))) as HL.
+        rewrite Hnil in HL. cbn in HL. lia. }
+      revert Hl. apply lowest_nonempty; [lia|exact Hw].
+    + intros x Hx. apply zsort_In in Hx. apply in_map_iff in Hx. destruct Hx as [m [<- Hm]].
+      apply lowest_incl in Hm. rewrite forallb_forall in E2. specialize (E2 m Hm). apply Z.ltb_lt. exact E2.
+  - destruct (Nat.leb (length w) max_insertion); [|reflexivity].
+    apply Z.eqb_eq. rewrite (Hties eq_refl). unfold lucky_out_of, lucky_result. rewrite isort_map.
+    change (lucky_take (Nat.min pick (S cap')) w (isort l_rtd w)) with (lowest_stable (Nat.min pick (S cap')) w).
+    symmetry. apply median_sorted_exact.
+    + intros Hnil. assert (Hl : lowest_stable (Nat.min pick (S cap')) w = []).
+      { destruct (lowest_stable (Nat.min pick (S cap')) w) eqn:El; [reflexivity|].
+        unfold zsort in Hnil. pose proof (isort_length (fun x => x) (map l_off (l :: l0))) as HL.
+        rewrite Hnil in HL. cbn in HL. lia. }
+      unfold lowest_stable in Hl. destruct (Nat.ltb (Nat.min pick (S cap')) (length w)); [|exact (Hw Hl)].
+      pose proof (isort_length l_rtd w) as HL. destruct (isort l_rtd w) as [|a r] eqn:Ei.
+      * destruct w; [exact (Hw eq_refl)|cbn in HL; lia].
+      * destruct (Nat.min pick (S cap')) eqn:Em; [lia|]. cbn in Hl. discriminate.
+    + intros x Hx. apply zsort_In in Hx. apply in_map_iff in Hx. destruct Hx as [m [<- Hm]].
+      assert (Hin : In m w).
+      { unfold lowest_stable in Hm. destruct (Nat.ltb (Nat.min pick (S cap')) (length w)); [|exact Hm].
+        eapply Permutation_in; [apply Permutation_sym, isort_perm|].
+        rewrite <- (firstn_skipn (Nat.min pick (S cap')) (isort l_rtd w)). apply in_or_app. left. exact Hm. }
+      rewrite forallb_forall in E2. specialize (E2 m Hin). apply Z.ltb_lt. exact E2.
 Qed.
 
 (* ---- histories ---- *)
@@ -291,6 +311,7 @@ Proof.
       apply (lucky_step_meets_spec cap pick (acc ++ [s]) _ Hcap Hpick).
       * destruct acc; discriminate.
       * apply isort_rtd_sorted_perm.
+      * intros _. reflexivity.
     + cbn [lucky_run C17_lucky_ok_from]. apply IH.
       destruct Hcf as [Hc [Hp _]]. split; [exact Hc|]. split; [exact Hp|]. reflexivity.
 Qed.
@@ -355,4 +376,136 @@ Theorem lucky_reset_forgets f1 f2 ops :
   lucky_run f1 (LReset :: ops) = lucky_run f2 (LReset :: ops).
 Proof.
   intros Hc Hp. cbn [lucky_run]. unfold lucky_reset. rewrite Hc, Hp. reflexivity.
+Qed.
+
+(* Reset equals fresh: a filter that went through ANY history, once Reset, behaves on every
+   further history exactly like the filter NewLuckyPacketFilter returned *)
+Definition lucky_fresh (cap pick : nat) : lucky := {| lk_cap := cap; lk_pick := pick; lk_state := [] |}.
+
+Lemma lucky_reset_is_fresh f : lucky_reset f = lucky_fresh (lk_cap f) (lk_pick f).
+Proof. reflexivity. Qed.
+
+Theorem lucky_reset_equals_new cap pick f0 pre f ops :
+  lucky_new cap pick = Some f0 -> lucky_after f0 pre = Some f ->
+  lucky_run f (LReset :: ops) = lucky_run f0 ops.
+Proof.
+  intros Hnew Hafter. destruct (lucky_new_configured cap pick f0 Hnew) as [Hc [Hp Hcf]].
+  assert (Hcf' := lucky_window (Z.to_nat cap) (Z.to_nat pick) ltac:(lia) pre f0 [] Hcf f Hafter).
+  destruct Hcf as [C0 [P0 S0]]. destruct Hcf' as [C1 [P1 _]].
+  assert (EC : lk_cap f = lk_cap f0) by congruence. assert (EP : lk_pick f = lk_pick f0) by congruence.
+  cbn [lucky_run]. rewrite lucky_reset_is_fresh, EC, EP.
+  destruct f0 as [c p st]. cbn [lk_cap lk_pick lk_state] in *. rewrite S0. reflexivity.
+Qed.
+
+(* an unconfigured filter has nothing to forget *)
+Theorem lucky_reset_equals_zero ops : lucky_run lucky_zero (LReset :: ops) = lucky_run lucky_zero ops.
+Proof. reflexivity. Qed.
+
+(* ---- ties: Go's insertion sort (windows of at most 12 samples) is the stable sort ---- *)
+Section Stable.
+  Context {A : Type} (key : A -> Z).
+
+  (* x placed behind everything not larger: insertion from the left, the mirror image of insert *)
+  Fixpoint rinsert (x : A) (l : list A) : list A :=
+    match l with
+    | [] => [x]
+    | y :: r => if key y <=? key x then y :: rinsert x r else x :: l
+    end.
+
+  Lemma insert_rinsert_comm x y p : insert key x (rinsert y p) = rinsert y (insert key x p).
+  Proof.
+    induction p as [|z r IH]; cbn [insert rinsert].
+    - destruct (Z.leb_spec (key x) (key y)); cbn [insert rinsert];
+        destruct (Z.leb_spec (key x) (key y)); try lia; reflexivity.
+    - destruct (Z.leb_spec (key z) (key y)) as [Hzy|Hzy]; destruct (Z.leb_spec (key x) (key z)) as [Hxz|Hxz];
+        cbn [insert rinsert].
+      + destruct (Z.leb_spec (key x) (key z)); [|lia]. destruct (Z.leb_spec (key x) (key y)); [|lia].
+        destruct (Z.leb_spec (key z) (key y)); [reflexivity|lia].
+      + destruct (Z.leb_spec (key x) (key z)); [lia|]. destruct (Z.leb_spec (key z) (key y)); [|lia].
+        rewrite IH. reflexivity.
+      + destruct (Z.leb_spec (key x) (key y)) as [Hxy|Hxy]; cbn [insert rinsert].
+        * destruct (Z.leb_spec (key x) (key y)); [|lia]. destruct (Z.leb_spec (key z) (key y)); [lia|]. reflexivity.
+        * destruct (Z.leb_spec (key x) (key y)); [lia|]. destruct (Z.leb_spec (key x) (key z)); [reflexivity|lia].
+      + destruct (Z.leb_spec (key x) (key y)); [lia|]. cbn [insert].
+        destruct (Z.leb_spec (key x) (key z)); [lia|]. destruct (Z.leb_spec (key z) (key y)); [lia|]. reflexivity.
+  Qed.
+
+  (* sorting one more (newer) element: it goes behind its equals *)
+  Lemma isort_snoc l y : isort key (l ++ [y]) = rinsert y (isort key l).
+  Proof.
+    induction l as [|x r IH]; cbn [app isort]; [reflexivity|].
+    rewrite IH. apply insert_rinsert_comm.
+  Qed.
+
+  Lemma rinsert_app_gt y q z : key y < key z -> rinsert y (q ++ [z]) = rinsert y q ++ [z].
+  Proof.
+    intros H. induction q as [|w r IH]; cbn [app rinsert].
+    - destruct (Z.leb_spec (key z) (key y)); [lia|reflexivity].
+    - destruct (Z.leb_spec (key w) (key y)); [rewrite IH|]; reflexivity.
+  Qed.
+
+  Lemma rinsert_all_le y p : (forall w, In w p -> key w <= key y) -> rinsert y p = p ++ [y].
+  Proof.
+    induction p as [|w r IH]; intros H; cbn [app rinsert]; [reflexivity|].
+    destruct (Z.leb_spec (key w) (key y)) as [_|C]; [|specialize (H w (or_introl eq_refl)); lia].
+    rewrite IH; [reflexivity|]. intros v Hv. apply H. right. exact Hv.
+  Qed.
+
+  Lemma sorted_snoc_inv q z : sorted_by key (q ++ [z]) -> sorted_by key q /\ forall w, In w q -> key w <= key z.
+  Proof.
+    induction q as [|a q IHq]; intros Hs; [split; [constructor|intros w []]|].
+    cbn [app] in Hs. inversion Hs as [|a' l' Hs' Hall]; subst. destruct (IHq Hs') as [S1 S2].
+    rewrite Forall_forall in Hall. split.
+    - constructor; [exact S1|]. apply Forall_forall. intros w Hw. apply Hall. apply in_or_app. left. exact Hw.
+    - intros w [<-|Hw]; [apply Hall; apply in_or_app; right; left; reflexivity|apply S2; exact Hw].
+  Qed.
+
+  (* Go's right-to-left sinking on a sorted prefix finds the same place *)
+  Lemma go_sink_rinsert y p : sorted_by key p -> rev (go_sink key y (rev p)) = rinsert y p.
+  Proof.
+    induction p as [|z q IH] using rev_ind; intros Hs; [reflexivity|].
+    rewrite rev_app_distr. cbn [rev app go_sink].
+    destruct (sorted_snoc_inv q z Hs) as [Sq Lq].
+    destruct (Z.ltb_spec (key y) (key z)) as [Hlt|Hge].
+    - cbn [rev]. rewrite (IH Sq). symmetry. apply rinsert_app_gt. exact Hlt.
+    - cbn [rev]. rewrite rev_involutive. rewrite rinsert_all_le; [rewrite <- app_assoc; reflexivity|].
+      intros w Hw. apply in_app_or in Hw. destruct Hw as [Hw|[<-|[]]]; [specialize (Lq w Hw); lia|lia].
+  Qed.
+
+  Theorem go_isort_is_isort l : go_isort key l = isort key l.
+  Proof.
+    unfold go_isort. induction l as [|y q IH] using rev_ind; [reflexivity|].
+    rewrite fold_left_app. cbn [fold_left]. rewrite isort_snoc.
+    rewrite <- (rev_involutive (fold_left _ q [])). rewrite IH.
+    apply go_sink_rinsert. apply isort_sorted.
+  Qed.
+
+  (* stability: the samples of any one key keep the order they had *)
+  Lemma filter_insert k x l :
+    filter (fun m => key m =? k) (insert key x l) =
+    if key x =? k then x :: filter (fun m => key m =? k) l else filter (fun m => key m =? k) l.
+  Proof.
+    induction l as [|y r IH]; cbn [insert filter].
+    - destruct (key x =? k); reflexivity.
+    - destruct (Z.leb_spec (key x) (key y)) as [Hle|Hgt]; cbn [filter]; [destruct (key x =? k); reflexivity|].
+      rewrite IH. destruct (Z.eqb_spec (key x) k) as [Ex|Nx]; [|reflexivity].
+      destruct (Z.eqb_spec (key y) k); [lia|reflexivity].
+  Qed.
+
+  Theorem isort_stable k l : filter (fun m => key m =? k) (isort key l) = filter (fun m => key m =? k) l.
+  Proof.
+    induction l as [|x r IH]; cbn [isort filter]; [reflexivity|].
+    rewrite filter_insert, IH. reflexivity.
+  Qed.
+End Stable.
+
+(* what the filter does on ties, windows of at most 12 samples: the slice after the first sort is the
+   stable sort of the window (samples of equal delay in window order, older first), so the selection
+   is its first pick entries, and the model's output is the filter's output *)
+Theorem lucky_ties_small pick w :
+  go_isort l_rtd w = isort l_rtd w /\
+  (forall d, filter (fun m => l_rtd m =? d) (go_isort l_rtd w) = filter (fun m => l_rtd m =? d) w) /\
+  lucky_out_of pick w (go_isort l_rtd w) = lucky_result (lucky_select pick w).
+Proof.
+  rewrite go_isort_is_isort. split; [reflexivity|]. split; [intros d; apply isort_stable|reflexivity].
 Qed.
